@@ -282,14 +282,27 @@ def _s_window_guards(ctx):
     bdef = B
     if B.isidentifier():
         ds = _defs(f, B)
+        if len(ds) == 2 and sum(1 for d in ds if isinstance(d, ast.Constant) and d.value == 0 and not isinstance(d.value, bool)) == 1:
+            # a zero floor written as a branch: `if permitted < 0: bound = 0 else: bound = permitted` - the other definition is the bound proper, provided the zero is assigned
+            # only where that value is negative (evaluate the guard of the zero assignment)
+            zero = [d for d in ds if isinstance(d, ast.Constant)][0]
+            proper = [d for d in ds if d is not zero][0]
+            zst = [st for st in walk_local(f) if isinstance(st, ast.Assign) and st.value is zero][0]
+            zg = [(lincmp(g.node(t_).ast, negate=(lab_ == "F")), src(g.node(t_).ast)) for i_ in g.ids_of(zst) for t_, lab_ in g.edge_guards(i_)]
+            neg = lin_expect({src(proper): -1}, 1)          # proper < 0
+            if not any(lc_ == neg for lc_, _ in zg):
+                raise Abstain(f"the bound {B} is set to 0 under {[t_ for _, t_ in zg]}, which was not recognised as `{src(proper)} < 0`")
+            ds = [proper]
         if len(ds) != 1:
             raise Abstain(f"{len(ds)} definitions of the bound {B}")
-        bdef = src(ds[0])
-        for _ in range(3):
-            for nm in [x.id for x in ast.walk(ds[0]) if isinstance(x, ast.Name)]:
-                d2 = _defs(f, nm)
-                if len(d2) == 1 and nm not in ("min", "self", "stream"):
-                    bdef = bdef.replace(nm, src(d2[0]))
+        class _SubDefs(ast.NodeTransformer):          # single-definition local names are replaced by their definitions, repeatedly
+            def visit_Name(self, nm):
+                d2 = _defs(f, nm.id) if isinstance(nm.ctx, ast.Load) and nm.id not in ("min", "max", "self", "stream") else []
+                return ast.parse(src(d2[0]), mode="eval").body if len(d2) == 1 else nm
+        be = ast.parse(src(ds[0]), mode="eval").body
+        for _ in range(4):
+            be = _SubDefs().visit(ast.parse(src(be), mode="eval")).body
+        bdef = src(be)
     def _is_bound(e):
         """min(.., max_outbound_frame_size, .., window(stream), ..), possibly floored at zero: max(0, <that>) (an empty frame is never sent)"""
         if isinstance(e, ast.Call) and isinstance(e.func, ast.Name) and not e.keywords:
@@ -312,6 +325,8 @@ def _s_window_guards(ctx):
         ok = _is_bound(ast.parse(bdef, mode="eval").body)
     except SyntaxError:
         raise Abstain(f"the bound `{bdef}` is not an expression")
+    if not ok and not ("max_outbound_frame_size" in bdef or "local_flow_control_window" in bdef):
+        raise Abstain(f"the bound `{bdef}` was not traced back to the frame size limit / the flow-control window")
     ctx.check(ok, "clamp/send-within-bound", q + " | bound", f"the bound of a DATA frame is `{bdef}`, not min(max_outbound_frame_size, flow-control window of that stream)")
     short_edge = "F" if pol_long == "T" else "T"
     def cuts(st):
@@ -327,6 +342,10 @@ def _s_window_guards(ctx):
         return False
     slices = [n for n, st in assign_sites(g, lambda x: isinstance(x, ast.Name) and x.id == D) if cuts(st)]
     pops = [n for n, st in assign_sites(g, lambda x: isinstance(x, ast.Name) and x.id == D) if isinstance(st, ast.Assign) and isinstance(st.value, ast.Call) and call_attr(st.value) in ("popleft", "pop")]
+    if not pops:
+        # the chunk may be a copy of the name the pop was bound to (`queued = q.popleft() ... chunk = queued`)
+        al = {d.id for d in _defs(f, D) if isinstance(d, ast.Name)}
+        pops = [n for n, st in assign_sites(g, lambda x: isinstance(x, ast.Name) and x.id in al) if isinstance(st, ast.Assign) and isinstance(st.value, ast.Call) and call_attr(st.value) in ("popleft", "pop")]
     if not pops:
         raise Abstain("the pop of the chunk was not found")
 
@@ -349,7 +368,28 @@ def _s_window_guards(ctx):
     stop = [r for r in g.ids(lambda x: x.kind == "stmt" and isinstance(x.ast, ast.Return)) if truth_guard(g, r, "self._stillProducing", False)]
     if not resched:
         raise Abstain("no re-scheduling site of the loop found")
-    w = g.must_pass([g.entry], set(resched) | set(stop), exc=False)
+    # a `return` taken because a selector helper answered None counts as parked when every None-return of that helper is preceded by the parking call
+    from sa.source import methods as _methods_of
+    cms = _methods_of(ctx.cls(H2, C))
+    parked, opaque = [], []
+    for r in g.ids(lambda x: x.kind == "stmt" and isinstance(x.ast, ast.Return)):
+        for t_, lab_ in g.edge_guards(r):
+            te = g.node(t_).ast
+            if isinstance(te, ast.Compare) and len(te.ops) == 1 and isinstance(te.left, ast.Name) and src(te.comparators[0]) == "None" and isinstance(te.ops[0], (ast.Is, ast.Eq)) == (lab_ == "T"):
+                ds = _defs(f, te.left.id)
+                if len(ds) == 1 and isinstance(ds[0], ast.Call) and isinstance(ds[0].func, ast.Attribute) and src(ds[0].func.value) == "self" and ds[0].func.attr in cms:
+                    h = cms[ds[0].func.attr]
+                    gh = ctx.cfg(h)
+                    hres = [n for n, c in call_sites(gh, lambda c: call_attr(c) in ("callLater", "addCallback") and any(src(a_) == me for a_ in c.args))]
+                    nones = [n for n in gh.ids(lambda x: x.kind == "stmt" and isinstance(x.ast, ast.Return)) if gh.node(n).ast.value is None or src(gh.node(n).ast.value) == "None"]
+                    implicit = gh.path([gh.entry], [gh.exit], avoid=gh.ids(lambda x: x.kind == "stmt" and isinstance(x.ast, (ast.Return, ast.Raise))), edge_ok=lambda a, b, l: l != "exc")
+                    if hres and nones and implicit is None and all(gh.must_precede(hres, [n], exc=False) is None for n in nones):
+                        parked.append(r)
+                    else:
+                        opaque.append(ds[0].func.attr)
+    w = g.must_pass([g.entry], set(resched) | set(stop) | set(parked), exc=False)
+    if w is not None and opaque:
+        raise Abstain(f"whether the loop is parked when {opaque} answers None was not understood")
     ctx.check(w is None, "loop/continues-structural", q, "the sending loop can return without parking on a Deferred or re-scheduling itself: every stream stalls", witness=g.describe(w))
 
 
@@ -388,7 +428,28 @@ def _s_backpressure_guards(ctx):
         raise Abstain("resumeProducing() is not guarded by a comparison of the remaining window")
     ok = any(lc == lin_expect({term: 1}, 1) for term, lc in cands)
     ctx.check(ok, "backpressure/resume-guard", q + " | producer.resumeProducing()", f"the paused producer is resumed under {[dict(lc[0]) for _, lc in cands]} >= {[lc[1] for _, lc in cands]}, not exactly when the remaining window is > 0")
-    ctx.check(truth_guard(g, n, "self._producerProducing", False), "backpressure/resume-guard", q + " | only if paused", "resumeProducing() is not confined to a paused producer")
+    # "only if paused": EVALUATE the guards that dominate the resume over every truth assignment of (a producer is registered, it is producing) - whatever their spelling
+    from sa.props._lib_f import subst_eval
+    from sa.astx import NotConst
+    atoms = ("self.producer", "self._producerProducing")
+    doms = [(g.node(t).ast, lab) for t, lab in g.edge_guards(n) if any(a_ in src(g.node(t).ast) for a_ in atoms)]
+    if not doms:
+        unknown = [src(g.node(t).ast) for t, lab in g.edge_guards(n) if any(isinstance(x, ast.Call) and isinstance(x.func, ast.Attribute) and src(x.func.value) == "self" and x.func.attr.startswith("_")
+                                                                             for x in ast.walk(g.node(t).ast))]
+        if unknown:
+            raise Abstain(f"the resume is guarded by {unknown}, a helper that was not inlined")
+        ctx.violation("backpressure/resume-guard", q + " | only if paused", "resumeProducing() is not confined to a paused producer (no dominating test of the producer state)")
+    else:
+        reach_states = []
+        for prod in (None, _PushProducer(())):
+            for pp in (True, False):
+                try:
+                    if all(bool(subst_eval(te, {"self.producer": prod, "self._producerProducing": pp}, {}, {"bool": bool})) == (lab == "T") for te, lab in doms):
+                        reach_states.append((prod is not None, pp))
+                except NotConst as e:
+                    raise Abstain(f"a guard of the resume could not be evaluated ({e})")
+        ctx.check(bool(reach_states) and all(has and not pp for has, pp in reach_states), "backpressure/resume-guard", q + " | only if paused",
+                  f"resumeProducing() is reachable with (producer registered, producing) in {reach_states}: it is not confined to a registered, paused producer")
 
 
 def _s_stream_fresh(ctx):
@@ -408,10 +469,42 @@ def _s_stream_fresh(ctx):
         raise Abstain("no stream key found in the send loop")
     a = f.args
     params = {x.arg for x in a.args + a.kwonlyargs + getattr(a, "posonlyargs", [])} | ({a.vararg.arg} if a.vararg else set()) | ({a.kwarg.arg} if a.kwarg else set())
+    from sa.source import methods as _methods_of
+    cms = _methods_of(ctx.cls(H2, C))
+
+    def fresh(d, fn, depth=0):
+        """True: the value is None or comes from next(self.priority) in this turn; False: positively something else; None: not understood"""
+        if isinstance(d, ast.Constant) and d.value is None:
+            return True
+        if isinstance(d, ast.Call) and call_name(d) == "next" and [src(x) for x in d.args] == ["self.priority"]:
+            return True
+        if isinstance(d, ast.Name):
+            fa = fn.args
+            if d.id in {x.arg for x in fa.args + fa.kwonlyargs} | ({fa.vararg.arg} if fa.vararg else set()) | ({fa.kwarg.arg} if fa.kwarg else set()):
+                return False
+            ds = _defs(fn, d.id)
+            rs = [fresh(x, fn, depth) for x in ds]
+            return None if (not ds or None in rs) else all(rs)
+        if isinstance(d, ast.Call) and isinstance(d.func, ast.Attribute) and src(d.func.value) == "self" and d.func.attr in cms and depth < 3:
+            # a selector helper: every value it returns must itself be fresh
+            h = cms[d.func.attr]
+            rets = [r for r in walk_local(h) if isinstance(r, ast.Return)]
+            if not rets or any(isinstance(x, (ast.Yield, ast.YieldFrom)) for x in walk_local(h)):
+                return None
+            rs = [True if r.value is None else fresh(r.value, h, depth + 1) for r in rets]
+            return None if None in rs else all(rs)
+        if isinstance(d, (ast.Attribute, ast.Subscript)):
+            return False          # an attribute / a container element survives from an earlier turn
+        return None
     for k in sorted(keys):
         defs = _defs(f, k)
-        other = [d for d in defs if not ((isinstance(d, ast.Constant) and d.value is None) or (isinstance(d, ast.Call) and call_name(d) == "next" and [src(x) for x in d.args] == ["self.priority"]))]
+        verdicts = [fresh(d, f) for d in defs]
+        if k not in params and None in verdicts and False not in verdicts:
+            raise Abstain(f"where `{k}` comes from (`{src(defs[verdicts.index(None)])}`) was not understood")
+        other = [d for d, v in zip(defs, verdicts) if v is not True]
         ok = k not in params and not other and any(isinstance(d, ast.Call) for d in defs)
+        if k in params and not defs and f.name != "_sendPrioritisedData":
+            raise Abstain("the stream key is a parameter of a helper")
         why = (f"`{k}` is a parameter of the loop function" if k in params else f"`{k}` is also defined by `{src(other[0])}`" if other else f"`{k}` is never taken from the priority tree")
         ctx.check(ok, "loop/stream-chosen-this-turn", q + f" | stream key `{k}`",
                   f"{why}: a stream chosen in an EARLIER turn is served after the loop waited (behind the transport / a Deferred); if that stream was reset or finished meanwhile the turn "
